@@ -355,3 +355,30 @@ def r6(ctx):
 def r7(ctx):
     from . import c04
     c04.r6(ctx)
+
+
+@rule("C11.R8", "an outcome reaches an IOCB only from its own transaction: the per-peer completion helpers of the IOCB controller are called by the queue machinery and the confirmation path, by nothing else",
+      floor=3, engines="E0 who-may-call")
+def r8(ctx):
+    prog = ctx.prog
+    c = prog.cls("app", "ApplicationIOController")
+    m = c.module
+    for need in ("_app_request", "_app_complete", "request", "confirmation"):
+        if need not in c.methods:
+            raise AnchorMissing("ApplicationIOController.%s" % need)
+    allowed = {"_app_complete": {"_app_request", "confirmation"}, "_app_request": set()}
+    n = 0
+    for mname, f in sorted(c.methods.items()):
+        for x in calls_in(f):
+            sc = self_call(x)
+            if sc in allowed:
+                n += 1
+                ctx.check("ApplicationIOController.%s:calls[%s]" % (mname, sc), mname in allowed[sc], where(m, x),
+                          "%s() completes / drives the IOCB that is active for a peer; called from %s() it hands an outcome to an IOCB whose own transaction produced none" % (sc, mname))
+    # the queue is given the request helper as a function, and request() itself goes down the stack
+    refs = [x for fn_ in c.methods.values() for y in calls_in(fn_) if norm(y.func) == "SieveQueue" for a_ in y.args for x in ast.walk(a_) if isinstance(x, ast.Attribute) and x.attr == "_app_request"]
+    ctx.check("ApplicationIOController:queue-uses-helper", len(refs) >= 1, where(m, c.node), "the per-peer queue is given _app_request as its send function")
+    down = [x for x in calls_in(c.methods["request"]) if norm(x.func) in ("super(ApplicationIOController, self).request", "super().request", "Application.request")]
+    ctx.check("ApplicationIOController.request:goes-down", len(down) == 1, where(m, c.methods["request"]), "a directly sent (unconfirmed) request goes to Application.request, not through the IOCB helpers")
+    if n < 2:
+        raise ShapeError("ApplicationIOController: completion helper calls not found")
